@@ -1,15 +1,18 @@
 (** Property C16 -- compression is correct for every well-behaved user-supplied matcher.
-    What is proved: everything the frame-level code does is independent of the matcher (the block encoder and the
-    matcher are universally quantified parameters of the model), and the value/code mappings the block encoder
-    applies to the matcher's numbers are inverse to the decoder's for every literal length, match length, offset and
-    sequence count a block can contain.  The bit-level encoding of a compressed block (FSE/Huffman streams) is NOT
-    modelled: it is validated on every run by decoding each emitted frame with the extracted decoder model's
-    implementation counterpart and libzstd (partial). *)
+    What is proved: the property itself at frame level, for a matcher given as a parameter with exactly the contract
+    of the property ([C16_roundtrip_for_every_well_behaved_matcher]); underneath it: everything the frame-level code
+    does is independent of the matcher, the value/code mappings are inverse to the decoder's over their whole ranges,
+    any parse that tiles the block is executed by the decoder to exactly the block, also through the bytes of the block
+    body.  The one assumption left is obligation O2 on the literals encoder (raw literals meet it unconditionally,
+    Huffman-coded literals when the table resolves the code words -- decidable, evaluated per block in C02's check);
+    the Huffman code builder itself is not modelled.  Each run also drives the real compressor through a scripted
+    matcher and decodes with this crate's decoder and libzstd. *)
 Require Import Zrs.lib.RsPrelude Zrs.gen.Generated Zrs.model.FrameEnc.
 Require Import Zrs.proofs.C14_Tables Zrs.proofs.C14_Headers Zrs.proofs.C15_Frame Zrs.proofs.C02_Roundtrip.
 Require Import Zrs.model.FseDec Zrs.model.BlockDec Zrs.model.Matcher Zrs.model.SeqSection Zrs.model.BlockEnc.
 Require Import Zrs.proofs.C06_Drain Zrs.proofs.C17_Matcher Zrs.proofs.C17_Shape Zrs.proofs.C02_Glue Zrs.proofs.C02_FastBlock.
 Require Import Zrs.model.Headers Zrs.model.HufDec Zrs.proofs.C02_BlockGen Zrs.proofs.C02_FastGen.
+Require Import Zrs.model.FrameDec Zrs.model.LitEnc Zrs.proofs.C02_Roundtrip Zrs.proofs.C02_Concrete Zrs.proofs.C16_AnyMatcher.
 Open Scope Z_scope.
 
 (** any block encoder / matcher: the emitted block is the raw block unless the compressed body is strictly
@@ -112,6 +115,48 @@ Theorem C16_any_valid_parse_block : forall hdr payload ty regen comp streams sc 
     t_max_symbol (fs_ml (sc_fse sc')) = MAX_MATCH_LENGTH_CODE.
 Proof. exact valid_parse_block. Qed.
 
+(** the property at frame level: for EVERY matcher -- any state type [M], step function, invariant, retained bytes and
+    advertised window -- that meets the contract (each block's report is matches of length >= 3 and distance within the
+    window with their preceding literals, then at most one trailing literal run, and rebuilds the block from the
+    retained bytes; a reset forgets everything), and every literals encoder meeting O2 (see C02), compressing ANY input
+    with any read fragmentation, block size and reuse history gives a frame that initialises a new decoder, decodes
+    completely, leaves nothing behind, regenerates the input and carries the checksum.  The sequences side (normaliser,
+    tables, bit streams) needs no assumption (O1 is proved).  The built-in match finder meets the contract
+    ([C16_builtin_matcher_meets_the_contract]). *)
+Theorem C16_roundtrip_for_every_well_behaved_matcher :
+  forall (M : Type) (mrun : M -> list Z -> bool -> res (M * option (list mseq))) (mreset : M -> M)
+         (MI : M -> Prop) (mret : M -> list Z) (mwin : M -> nat),
+  (forall m data skip, MI m -> (length data <= mwin m)%nat ->
+     exists m' out, mrun m data skip = ROk (m', out) /\ MI m' /\ mwin m' = mwin m /\
+       exists dropped H, mret m = dropped ++ H /\ mret m' = H ++ data /\
+         if skip then out = None
+         else exists seqs, out = Some seqs /\ apply_seqs H seqs = Some (H ++ data) /\ Forall (match_ok (mwin m)) seqs /\ block_shape seqs) ->
+  (forall m, MI m -> MI (mreset m) /\ mwin (mreset m) = mwin m /\ mret (mreset m) = []) ->
+  forall litenc,
+  (forall o lits h, (forall t, o = Some t -> h = t) -> zlen lits <= MAX_BLOCK_SIZE ->
+     let '(hdr, payload, o') := litenc o lits in
+     exists ht', lit_ok h lits hdr payload ht' /\ (forall t, o' = Some t -> ht' = t)) ->
+  forall slice wsize hash32 cs data script frame cs' r',
+  UInit M MI mwin cs -> 1 <= Z.of_nat slice <= 131072 -> 1 <= wsize <= 2 ^ 27 ->
+  (forall h x, hash32 = Some h -> length (h x) = 4%nat) ->
+  compress_frame (ucst M) (ublock M mrun litenc) (uskip M mrun) (ufallback M) (ureset M mreset) LFastest slice wsize hash32 cs
+    {| rd_data := data; rd_script := script |} = ROk (frame, cs', r') ->
+  exists d1 rest evs s1 d2 s2,
+    fdec_reset fdec_new frame = ROk (d1, rest, evs) /\ fd_state d1 = Some s1 /\
+    fdec_decode_blocks d1 rest SAll = ROk (d2, [], true) /\ fd_state d2 = Some s2 /\
+    buf_content s2 = data /\
+    fr_checksum s2 = match hash32 with Some h => Some (le_val (h data)) | None => None end.
+Proof. exact any_matcher_roundtrip. Qed.
+
+Theorem C16_builtin_matcher_meets_the_contract : forall m data skip, DInv m -> (length data <= max_window m)%nat ->
+  exists m' out, mstep m (OpBlock data skip) = ROk (m', out) /\ DInv m' /\ max_window m' = max_window m /\
+    exists dropped H, retained m = dropped ++ H /\ retained m' = H ++ data /\
+      if skip then out = None
+      else exists seqs, out = Some seqs /\ apply_seqs H seqs = Some (H ++ data) /\ Forall (match_ok (max_window m)) seqs /\ block_shape seqs.
+Proof. exact builtin_meets_contract. Qed.
+
+Print Assumptions C16_roundtrip_for_every_well_behaved_matcher.
+Print Assumptions C16_builtin_matcher_meets_the_contract.
 Print Assumptions C16_any_valid_parse_block.
 Print Assumptions C16_any_valid_parse_executes.
 Print Assumptions C16_any_valid_parse_block_with_raw_literals.
